@@ -1623,7 +1623,11 @@ func tbC15Legacy(c *Ctx, p *packages.Package, attrs *types.Named) {
 	{
 		var keysOnly []*types.Const
 		for _, k := range universe {
-			if strings.IndexFunc(constant.StringVal(k.Val()), func(r rune) bool { return unicode.IsLetter(r) || unicode.IsDigit(r) }) >= 0 || seeds[k] {
+			v := constant.StringVal(k.Val())
+			if strings.Contains(v, "=") && !seeds[k] {
+				continue // a whole key=value token kept next to the keys (the version token), not a key
+			}
+			if strings.IndexFunc(v, func(r rune) bool { return unicode.IsLetter(r) || unicode.IsDigit(r) }) >= 0 || seeds[k] {
 				keysOnly = append(keysOnly, k)
 			}
 		}
